@@ -40,6 +40,9 @@ pub(crate) struct SyncTrackerRes {
     /// so that in the next detect step they will be skipped and avoid ensless loop.
     pub(crate) pushed_component_from_network: HashMap<ComponentChangeId, Tick>,
     pub(crate) pushed_handles_from_network: HashMap<AssId, usize>,
+    /// Synchronized entities this peer has despawned itself: a spawn message for one of them that
+    /// is still on its way (a snapshot built before the despawn was known) is stale.
+    pub(crate) despawned_locally: HashSet<Uuid>,
     /// Parent links (child uuid -> parent uuid) applied from the network and not yet seen by the
     /// parent tracking systems, so that they are not announced again.
     pub(crate) pushed_parent_from_network: HashMap<Uuid, Uuid>,
